@@ -4,6 +4,7 @@ import common
 from common import show_floats, show_ints, fbits, outcome
 import tprog, gen_dag, gen_ops
 
+tprog.ENTRIES = True        # function / Tensor method / operator / nn layer class
 tprog.SPELLINGS = True
 tprog.LAYOUTS = True      # leaves are handed over in C / Fortran / strided / negative-stride / offset / transposed layouts
 PROP = 'C06'
